@@ -90,12 +90,15 @@ def delivery_run(
     resubmit: bool = True,
     pre_hook=None,
     stale_p: float = 0.0,
+    twins: int = 0,
 ) -> Run | tuple[Run, World]:
     rng = random.Random(seed)
     w = world or World(events=events, sdata=sdata, trust_negative=trust_negative, dedup_items=dedup_items)
     run = Run()
     try:
         if resubmit:
+            if twins:
+                w.store_only(spec, twins)
             w.submit(spec)
         if pre_hook:
             pre_hook(w)
